@@ -2,6 +2,8 @@
 import copy
 import math
 
+import numpy as np
+
 from hypothesis import strategies as st
 
 from pbt import netgen, oracles
@@ -25,7 +27,7 @@ ASSUMPTIONS = ["cases in which either run reports a bus voltage below 0.5 or abo
                "voltage-dependent loads are switched off when a pypower algorithm (gs, fdbx, fdxb) takes part",
                "per-generator q is compared as sum per node; solver accuracy 1e-8 MVA (tolerance_mva = 1e-8/sn_mva), comparison 1e-4 MVA, currents and loadings with the power tolerance expressed at the lowest voltage level / smallest rating; gs max_iteration 20000"]
 
-PROFILE = netgen.profile(oos=0.04, open_prob=0.2, dcline=False, second_slack=False, nb_max=9, max_per_bus=2,
+PROFILE = netgen.profile(oos=0.04, open_prob=0.2, dcline=False, second_slack=False, nb_max=9, max_per_bus=2, slack_any_level=True,
                          extra_branches=(0, 2), trafo_parallel_pair=True,
                          bus_kinds={"load": 6, "sgen": 3, "gen": 2, "storage": 1, "shunt": 1, "ward": 1, "xward": 0, "motor": 0,
                                     "asymmetric_load": 0, "asymmetric_sgen": 0})
@@ -137,6 +139,47 @@ def run(net, opts, sn, angles, vdl):
         net.load["scaling"] = sc
     with silence():
         pp.runpp(net, calculate_voltage_angles=angles, voltage_depend_loads=vdl, tolerance_mva=tol, max_iteration=mi, init=init, **o)
+
+
+def tap_phase_shift(recipe):
+    """an in-service transformer whose tap changer (not its vector group) adds a phase angle in its present position"""
+    for e in recipe["el"]:
+        if e["t"] in ("trafo", "trafo3w") and e.get("in_service", True) and e.get("tap_changer_type") \
+                and e.get("tap_pos", 0) != e.get("tap_neutral", 0) \
+                and (e["tap_changer_type"] == "Ideal" or e.get("tap_step_degree", 0.0) != 0.0):
+            return True
+    return False
+
+
+def is_other_solution(alt, ref, sn, angles, vdl):
+    """True if the (differing) result of `alt` is a root of the power flow equations as well: the complex voltages of all
+    internal buses (incl. the auxiliary buses, which the result tables do not show) satisfy V*conj(Ybus*V) = Sbus(|V|) at the
+    PQ buses and its real part at the PV buses within 1e-6 p.u.; if the internal data are not available: Newton-Raphson
+    started from the result tables converges at once to the same voltages."""
+    import pandapower as pp
+    internal = alt._ppc.get("internal", {}) if alt._ppc is not None else {}
+    if all(k in internal for k in ("V", "Ybus", "bus", "gen", "baseMVA", "pv", "pq")):
+        from pandapower.pypower.makeSbus import makeSbus
+        V = np.asarray(internal["V"])
+        Sbus = makeSbus(internal["baseMVA"], internal["bus"], internal["gen"], vm=np.abs(V) if vdl else None)
+        mis = V * np.conj(internal["Ybus"] @ V) - Sbus
+        pv, pq = np.asarray(internal["pv"], dtype=int), np.asarray(internal["pq"], dtype=int)
+        F = np.r_[mis[pv].real, mis[pq].real, mis[pq].imag]
+        return bool(len(F) == 0 or np.abs(F).max() < 1e-6)
+    net = copy.deepcopy(alt)
+    vm0, va0 = net.res_bus.vm_pu.values.copy(), net.res_bus.va_degree.values.copy()
+    try:
+        with silence():
+            pp.runpp(net, calculate_voltage_angles=angles, voltage_depend_loads=vdl, tolerance_mva=1e-8 / sn, init="results",
+                     max_iteration=3, numba=False, lightsim2grid=False)
+    except Exception:
+        return False
+    ok = ~np.isnan(vm0)
+    if not np.array_equal(ok, ~np.isnan(net.res_bus.vm_pu.values)):
+        return False
+    dvm = np.abs(net.res_bus.vm_pu.values[ok] - vm0[ok]).max() if ok.any() else 0.0
+    dva = np.abs(net.res_bus.va_degree.values[ok] - va0[ok]).max() if ok.any() else 0.0
+    return bool(dvm < 1e-7 and dva < 1e-5)
 
 
 def compare(ref, alt, sn):
@@ -254,7 +297,16 @@ def check(case):
             res.label("degenerate-solution-skipped")
             continue
         diffs = compare(ref, net, sn)
+        if diffs and is_other_solution(net, ref, sn, angles, vdl):
+            # the alternative returned a point that satisfies the power flow equations, too (Newton started from it stays
+            # there): the equations have several solutions, which one an iteration reaches is not a property of the code
+            res.label("other-valid-solution-skipped:" + alg)
+            continue
         if diffs:
-            res.fail("%s/results-differ%s" % (name, "/init-results" if a["init"] == "results" else ""), options=a, diffs=diffs[:6])
+            if alg == "bfsw" and loops > 0 and tap_phase_shift(recipe):
+                kind = "/tap-phase-shift-in-meshed-network"
+            else:
+                kind = "/init-results" if a["init"] == "results" else ""
+            res.fail("%s/results-differ%s" % (name, kind), options=a, diffs=diffs[:6])
     res.nontrivial = returned >= 1 and interesting
     return res
